@@ -24,6 +24,7 @@ func genNetConfig(ch *Chooser, prop, tier string, disabled map[string]bool) *Run
 	}
 	genByzantine(ch, cfg, nb)
 	cfg.StorageOrder = ch.Pick("st-order", 4)
+	cfg.RefTimeMode = ch.Pick("ref-time", 3)
 	if prop == "C12" {
 		cfg.LenientNilBlock = ch.Pick("lenient-nil-block", 2) == 1
 	}
